@@ -78,3 +78,17 @@ package atree
 //@   ensures err != nil ==> st == nil
 //@   ensures forall id SlabID :: old(sto[id]) != nil && old(sto[id]) != valueRoot(recv) ==> sto[id] == old(sto[id])
 //@   modifies ghost.sto, ghost.stored, ghost.touched, alloc, as(valueRoot(recv), *ArrayDataSlab).header, as(valueRoot(recv), *ArrayDataSlab).inlined, as(valueRoot(recv), *MapDataSlab).header, as(valueRoot(recv), *MapDataSlab).inlined
+
+//@ # ---- Storable (caller-supplied or atree's own): copying and inspection do not write atree-internal state (A2)
+//@ iface Storable.CopyNonRefSimple() (s, err)
+//@   ensures err == nil ==> s != nil
+//@   modifies alloc
+
+//@ iface Storable.CanCopyNonRefSimple() (r)
+//@   pure
+
+//@ iface Storable.ChildStorables() (r)
+//@   modifies alloc
+
+//@ iface Storable.StoredValue(storage) (v, err)
+//@   modifies alloc
